@@ -50,6 +50,15 @@ def run(ctx):
         return
     out = oks[0][3][0]
     key = "_%d" % (out[3] if out[0] == "phi" else out[1])
+    # U1b: every way out is either the assembled vector, an Err value, or the propagated error of an expansion
+    odd = []
+    for t in returns_under(ft, {}):
+        if is_variant(t, "Ok") or is_variant(t, "Err"):
+            continue
+        if t[0] == "call" and t[1].endswith("::from_residual"):
+            continue
+        odd.append(t)
+    run.inst("C09.U1", "single-result-source", not odd, "results other than Ok(assembled vector) / Err: %s" % ([fmt(t)[:80] for t in odd] or "none"), w)
     muts = mutators_of(ft, key)
     appends = pushes_to(ft, key)
     non_append = [c for c in muts if c not in appends]
@@ -182,4 +191,30 @@ def run(ctx):
         creators = [c for c in ft.calls() if c.dest["local"] == int(key[1:]) and not c.dest["proj"]]
         after = creators and all(c.block not in l.body and ft.cfg.can_reach(l.head, c.block) and not ft.cfg.can_reach(c.block, l.head) for c in creators)
         run.inst("C09.U3", "error-before-output", bool(after), "the output vector is created (%s) only after the validation loop has finished" % [c.callee.split("::")[-1] for c in creators], w)
+    # U4: the fan-out function consulted by uncompact, tabulated over its whole finite domain of resolutions,
+    # agrees with the hierarchy (12 under the world cell, 5 per base cell, 4 per level) wherever the honest
+    # result is within the property's bound of 4^8 cells
+    from ..query import call_eval, Undetermined
+    wrong = []
+    n = 0
+    try:
+        for pr in range(-1, 31):
+            for cr in range(-1, 31):
+                if cr < pr:
+                    want = 0
+                elif cr == pr:
+                    want = 1
+                else:
+                    want = (12 if pr < 0 else 1) * (5 if (pr < 1 and cr >= 1) else 1) * 4 ** max(0, cr - max(pr, 1))
+                if want > 4 ** 8:
+                    continue
+                n += 1
+                got = call_eval(facts, NUMCH, [pr, cr])
+                if got != want:
+                    wrong.append((pr, cr, got, want))
+        run.inst("C09.U4", "fanout-table", not wrong, "get_num_children tabulated on %d (parent, child) resolution pairs with fan-out <= 4^8: %s" % (
+            n, "all equal the hierarchy fan-out" if not wrong else "differs at (parent, child, got, want) = %s" % (wrong[:3],)), where(facts.fns[NUMCH]["span"]) if NUMCH in facts.fns else None)
+        run.extra["fanout_pairs"] = n
+    except Undetermined as e:
+        run.bad("C09.U4", "fanout-table", "get_num_children is not a closed integer formula of its two arguments (%s) - cannot decide" % e)
     run.floor("C09", "rule instances", len(run.instances), 9)
